@@ -49,7 +49,24 @@ fn one(src: &str, force_slices: bool) -> Value {
                     .collect();
                 lts.push(json!({"lt": m.lifetime_env.fmt_lifetime(lt).to_string(), "longer": longer, "edges": edges}));
             }
-            methods.push(json!({"ty": ty.name().as_str(), "method": m.name.as_str(), "map": lts}));
+            // what elision.rs made of the written lifetimes: hir::Type::lifetimes() of self, every parameter and every
+            // type contained in the output, and LifetimeEnv::num_lifetimes
+            let fmt = |l: hir::MaybeStatic<hir::Lifetime>| match l {
+                hir::MaybeStatic::Static => "static".to_string(),
+                hir::MaybeStatic::NonStatic(l) => m.lifetime_env.fmt_lifetime(l).to_string(),
+            };
+            let mut lowered_params: Vec<Vec<String>> = vec![];
+            if let Some(ps) = m.param_self.as_ref() {
+                let t: hir::Type = ps.ty.clone().into();
+                lowered_params.push(t.lifetimes().map(fmt).collect());
+            }
+            for p in m.params.iter() {
+                lowered_params.push(p.ty.lifetimes().map(fmt).collect());
+            }
+            let mut lowered_ret: Vec<Vec<String>> = vec![];
+            m.output.with_contained_types(|t| lowered_ret.push(t.lifetimes().map(fmt).collect()));
+            let lowered = json!({"params": lowered_params, "ret": lowered_ret, "num": m.lifetime_env.num_lifetimes()});
+            methods.push(json!({"ty": ty.name().as_str(), "method": m.name.as_str(), "map": lts, "lowered": lowered}));
         }
     }
     json!({"methods": methods})
